@@ -22,6 +22,7 @@ func init() {
 type llCase struct {
 	W, H, C, P, Pred int
 	S              []int // interleaved samples
+	Huge           bool  // S omitted: flat 100 with one sample 250 at a third of the frame (frames above 2^20 samples)
 }
 
 func packSamples(s []int, p int) []byte {
@@ -75,6 +76,13 @@ func llKey(a llCase) string {
 
 // llRoundTrip is the C02 oracle.
 func llRoundTrip(a llCase, c *eng.Ctx) *eng.Fail {
+	if a.Huge && a.S == nil {
+		a.S = make([]int, a.W*a.H)
+		for i := range a.S {
+			a.S[i] = 100
+		}
+		a.S[len(a.S)/3] = 250
+	}
 	pix := packSamples(a.S, a.P)
 	keep := append([]byte(nil), pix...)
 	stream, err := llEncode(a, pix)
@@ -93,6 +101,9 @@ func llRoundTrip(a llCase, c *eng.Ctx) *eng.Fail {
 	}
 	if !bytes.Equal(out, pix) {
 		i := firstDiff(out, pix)
+		if len(a.S) > 4096 {
+			return eng.Failf("mismatch:"+llKey(a), "decoded differs at byte %d (%dx%d frame)", i, a.W, a.H)
+		}
 		return eng.Failf("mismatch:"+llKey(a), "decoded differs at byte %d: got %v want %v", i, unpackSamples(out, a.P), a.S)
 	}
 	if c != nil {
@@ -115,6 +126,13 @@ var llRT = eng.Reg("C02.roundtrip", func(a llCase) *eng.Fail { return llRoundTri
 
 // llRefDecode is C13(a): the independent T.81 decoder recovers the source from the library stream.
 func llRefDecode(a llCase, c *eng.Ctx) *eng.Fail {
+	if a.Huge && a.S == nil {
+		a.S = make([]int, a.W*a.H)
+		for i := range a.S {
+			a.S[i] = 100
+		}
+		a.S[len(a.S)/3] = 250
+	}
 	pix := packSamples(a.S, a.P)
 	stream, err := llEncode(a, pix)
 	if err != nil {
@@ -341,7 +359,7 @@ func llEnumerate(c *eng.Ctx, sub string, run func(a llCase, c *eng.Ctx) *eng.Fai
 		for _, nc := range []int{1, 3} {
 			for _, p := range []int{2, 7, 8, 9, 12, 15, 16} {
 				for pred := 0; pred <= 8; pred++ {
-					for k := 0; k < 6; k++ {
+					for k := 0; k < 7; k++ {
 						if sz[0]*sz[1] > 100000 && (k%2 == 1 || nc == 3) {
 							continue
 						}
@@ -361,6 +379,23 @@ func llEnumerate(c *eng.Ctx, sub string, run func(a llCase, c *eng.Ctx) *eng.Fai
 	})
 	if !done {
 		c.Capped("family images cut by deadline")
+	}
+	// frames of more than 2^20 and 2^21 samples: flat with one outlier (a category that occurs once in millions)
+	for _, g := range [][3]int{{1500, 1400, 8}, {1100, 1000, 16}} {
+		for _, pred := range []int{1, 4, 0, 8} {
+			s := make([]int, g[0]*g[1])
+			for i := range s {
+				s[i] = 100
+			}
+			s[len(s)/3] = 250
+			a := llCase{W: g[0], H: g[1], C: 1, P: g[2], Pred: pred, S: s}
+			c.Eval(1)
+			if f := eng.Guard(func() *eng.Fail { return run(a, c) }); f != nil {
+				a.S = nil
+				a.Huge = true
+				eng.Recheck(c, sub, a, reg)
+			}
+		}
 	}
 	c.Subspace("family-images", c.Evals()-before, false, fmt.Sprintf("sizes %v x comps{1,3} x P{2,7,8,9,12,15,16} x predictors x 6 structured contents (zeros, MAX, checker, alternating extremes columns, ramp, LCG noise)", sizes))
 
@@ -470,6 +505,8 @@ func familyImage(w, h, nc, p, k int) []int {
 					}
 				case 4:
 					v = (x*7 + y*13 + c*5) & max
+				case 6: // every sample equal to the first prediction 2^(P-1): all differences zero, one bit per sample
+					v = (max + 1) / 2
 				default:
 					v = int(l.Next()) & max
 				}
